@@ -1,6 +1,13 @@
 """C16 thread-count runs: assemble a fixed set of operators in THIS process (NUMBA_NUM_THREADS is set by the driver,
 fresh process per thread count) and print the SHA-256 of the bytes of every result.
-stdin JSON: {"families": [...], "reps": int}.  Output: '@@JSON {"threads": n, "hashes": {name: [sha, ...]}}'."""
+stdin JSON: {"families": [...], "reps": int}.  Output: '@@JSON {"threads": n, "hashes": {name: [sha, ...]}, "variants": ...}'.
+
+Every job is a pair (build, apply): `build()` creates the operator / evaluator object, `apply(obj)` produces the array.
+(a) build+apply under the process's thread count, `reps` times  -> "hashes" (compared across fresh processes);
+(b) in processes with more than one thread: build under numba.set_num_threads(1) and apply under 1, 2 and the maximum,
+    and build under the maximum and apply under 1 -> "variants" (all must be bitwise equal inside the process).
+Family "fmm_near" drives the prange kernels of api/fmm/helpers.py: the near-field evaluator and sparse matrix
+(get_local_interaction_operator) and the dense point evaluator used by the exafmm stand-in."""
 import hashlib
 import json
 import sys
@@ -38,39 +45,97 @@ def main():
     rwgseg = G.make_space(grid, "RWG", se=block, incl=True, trunc=False)
     sncseg = G.make_space(grid, "SNC", se=block, incl=True, trunc=False)
     pts = np.array([[3.0, 0.1, -2.5, 0.3], [0.2, 2.9, 0.4, -3.1], [1.5, -1.7, 2.2, 0.9]])
+    from bempp_cl.api.integration.triangle_gauss import rule as tri_rule
+    from bempp_cl.api.fmm import helpers as fmm_helpers
+    lp, _ = tri_rule(3)
+    cf = (np.arange(lp.shape[1] * grid.number_of_elements) % 11 - 5.0) / 3.0
+    tg = np.ascontiguousarray(grid.centroids[:40] + 0.05)
+    src = np.ascontiguousarray(grid.centroids)
+    ch = np.arange(src.shape[0]) % 5 - 2.0
+    gf_p1 = bempp_cl.api.GridFunction(p1, coefficients=np.arange(p1.global_dof_count) % 7 - 3.0)
+
+    def near(mode):
+        def build():
+            old = bempp_cl.api.GLOBAL_PARAMETERS.fmm.near_field_representation
+            bempp_cl.api.GLOBAL_PARAMETERS.fmm.near_field_representation = mode
+            try:
+                return fmm_helpers.get_local_interaction_operator(grid, lp, "laplace", np.array([], dtype="float64"),
+                                                                  "double", False, "numba")
+            finally:
+                bempp_cl.api.GLOBAL_PARAMETERS.fmm.near_field_representation = old
+        return build
+
+    wf = lambda op: (lambda: op())          # build = create the boundary operator object
+    dense = lambda o: o.weak_form().to_dense()
     jobs = {
-        "laplace_sl": [("laplace.single_layer(P1,P1,P1)", lambda: laplace.single_layer(p1, p1, p1).weak_form().to_dense()),
-                       ("laplace.single_layer(P1seg,DP0,P1seg)", lambda: laplace.single_layer(p1seg, dp0, p1seg).weak_form().to_dense()),
-                       ("laplace.double_layer(screen P1)", lambda: laplace.double_layer(p1s, p1s, p1s).weak_form().to_dense())],
+        "laplace_sl": [("laplace.single_layer(P1,P1,P1)", lambda: laplace.single_layer(p1, p1, p1), dense),
+                       ("laplace.single_layer(P1seg,DP0,P1seg)", lambda: laplace.single_layer(p1seg, dp0, p1seg), dense),
+                       ("laplace.double_layer(screen P1)", lambda: laplace.double_layer(p1s, p1s, p1s), dense)],
         # quick tier: one JIT of the regular + singular scalar assemblers only
-        "laplace_sl_only": [("laplace.single_layer(P1,P1,P1)", lambda: laplace.single_layer(p1, p1, p1).weak_form().to_dense()),
-                            ("laplace.single_layer(P1seg,DP0,P1seg)", lambda: laplace.single_layer(p1seg, dp0, p1seg).weak_form().to_dense())],
-        "identity": [("sparse.identity(P1seg,P1,P1)", lambda: sparse.identity(p1seg, p1, p1).weak_form().to_dense()),
-                     ("sparse.identity(RWG,RWG,SNC)", lambda: sparse.identity(rwg, rwg, snc).weak_form().to_dense())],
-        "potential": [("potential.laplace.single_layer(P1)", lambda: laplace_pot.single_layer(p1, pts).evaluate(
-            bempp_cl.api.GridFunction(p1, coefficients=np.arange(p1.global_dof_count) % 7 - 3.0)))],
-        "hypersingular": [("laplace.hypersingular(P1seg)", lambda: laplace.hypersingular(p1seg, p1, p1seg).weak_form().to_dense()),
-                          ("helmholtz.hypersingular(P1,k=1.3)", lambda: helmholtz.hypersingular(p1, p1, p1, 1.3).weak_form().to_dense())],
+        "laplace_sl_only": [("laplace.single_layer(P1,P1,P1)", lambda: laplace.single_layer(p1, p1, p1), dense),
+                            ("laplace.single_layer(P1seg,DP0,P1seg)", lambda: laplace.single_layer(p1seg, dp0, p1seg), dense)],
+        "identity_p1": [("sparse.identity(P1seg,P1,P1)", lambda: sparse.identity(p1seg, p1, p1), dense)],
+        "identity": [("sparse.identity(P1seg,P1,P1)", lambda: sparse.identity(p1seg, p1, p1), dense),
+                     ("sparse.identity(RWG,RWG,SNC)", lambda: sparse.identity(rwg, rwg, snc), dense)],
+        "potential": [("potential.laplace.single_layer(P1)", lambda: laplace_pot.single_layer(p1, pts),
+                       lambda o: o.evaluate(gf_p1))],
+        "fmm_near": [("fmm.near_field evaluator (numba_evaluate_local_interactions)", near("evaluate"), lambda o: o.matvec(cf)),
+                     ("fmm.near_field sparse matrix (get_local_interaction_matrix_impl)", near("sparse"), lambda o: o.matvec(cf)),
+                     ("fmm.dense_interaction_evaluator (exafmm stand-in)", lambda: None,
+                      lambda o: fmm_helpers.dense_interaction_evaluator(tg, src, ch, "laplace", np.array([], dtype="float64")))],
+        "hypersingular": [("laplace.hypersingular(P1seg)", lambda: laplace.hypersingular(p1seg, p1, p1seg), dense),
+                          ("helmholtz.hypersingular(P1,k=1.3)", lambda: helmholtz.hypersingular(p1, p1, p1, 1.3), dense)],
         "maxwell": [("maxwell.electric_field(RWGseg,RWG,SNCseg,k=1.1)",
-                     lambda: maxwell.electric_field(rwgseg, rwg, sncseg, 1.1).weak_form().to_dense()),
-                    ("maxwell.magnetic_field(RWG,RWG,SNC,k=1.1)",
-                     lambda: maxwell.magnetic_field(rwg, rwg, snc, 1.1).weak_form().to_dense())],
+                     lambda: maxwell.electric_field(rwgseg, rwg, sncseg, 1.1), dense),
+                    ("maxwell.magnetic_field(RWG,RWG,SNC,k=1.1)", lambda: maxwell.magnetic_field(rwg, rwg, snc, 1.1), dense)],
     }
-    out, times = {}, {}
+    out, times, variants = {}, {}, {}
     import time
+    maxt = int(numba.config.NUMBA_NUM_THREADS)
+
+    def run(build, apply):
+        r = apply(build())
+        if hasattr(r, "todense"):
+            r = np.asarray(r.todense())
+        return sha(np.asarray(r))
+
     for fam in fams:
-        for name, f in jobs[fam]:
-            hs = []
+        for name, build, apply in jobs[fam]:
             t0 = time.time()
-            for _ in range(reps):
-                r = f()
-                if hasattr(r, "todense"):
-                    r = np.asarray(r.todense())
-                hs.append(sha(np.asarray(r)))
-            out[name] = hs
+            out[name] = [run(build, apply) for _ in range(reps)]
+            if maxt > 1:
+                v = {}
+                numba.set_num_threads(1)
+                obj = build()
+                for n in sorted({1, 2, maxt}):
+                    numba.set_num_threads(n)
+                    for rep in range(2):
+                        r = apply(obj) if not hasattr(obj, "weak_form") else apply(build_fresh(build, 1))
+                        if hasattr(r, "todense"):
+                            r = np.asarray(r.todense())
+                        v["built@1 applied@%d #%d" % (n, rep)] = sha(np.asarray(r))
+                numba.set_num_threads(maxt)
+                obj = build()
+                numba.set_num_threads(1)
+                r = apply(obj)
+                v["built@%d applied@1" % maxt] = sha(np.asarray(r.todense()) if hasattr(r, "todense") else np.asarray(r))
+                numba.set_num_threads(maxt)
+                variants[name] = v
             times[name] = round(time.time() - t0, 1)
-    print("@@JSON " + json.dumps({"threads": int(numba.get_num_threads()), "hashes": out, "seconds": times,
+    print("@@JSON " + json.dumps({"threads": int(numba.get_num_threads()), "hashes": out, "variants": variants,
+                                  "seconds": times,
                                   "zero_multiplier_entries": int(np.count_nonzero(p1seg.local_multipliers[p1seg.support] == 0))}))
+
+
+def build_fresh(build, nthreads):
+    """Boundary operators cache their weak form: for (b) a fresh object is built under `nthreads` and assembled under the
+    thread count that is active at the call."""
+    cur = numba.get_num_threads()
+    numba.set_num_threads(nthreads)
+    try:
+        return build()
+    finally:
+        numba.set_num_threads(cur)
 
 
 if __name__ == "__main__":
